@@ -17,9 +17,11 @@ TraceLog == ndJsonDeserialize(IOEnv.TRACE)
 OutFile  == IOEnv.OUT
 KF(id)   == id \in DOMAIN IOEnv     \* a known finding is enabled by an environment variable
 
-VARIABLES st, l, rej, skip, cur, nexec, ndisc, known, lastRx, lastMid
+VARIABLES st, l, rej, skip, cur, nexec, ndisc, known, lastRx, lastMid,
+          srv       \* the peer is a real libcoap server (drv_rel srv=1): [trig, pend] - pend: token -> virtual time at which the answer its
+                    \* handler deferred (coap_register_async) is due (released by the server application, or by the entry's timer)
 
-vars == <<st, l, rej, skip, cur, nexec, ndisc, known, lastRx, lastMid>>
+vars == <<st, l, rej, skip, cur, nexec, ndisc, known, lastRx, lastMid, srv>>
 \* lastMid: <<session, type>> -> message id of the last response of that type (ACK / CON) received on the session: all libcoap's duplicate filter remembers
 
 OK(s)        == [ok |-> TRUE,  st |-> s, why |-> "", kf |-> ""]
@@ -157,7 +159,10 @@ OnQuiet(s, e) ==
        THEN Bad7(s, "C07:request-never-concluded")
   ELSE OK(s)
 
+\* with a real libcoap server as the peer (drv_rel srv=1) the simulator also logs what that node (node 1) sends and receives:
+\* this specification is about the client (node 0)
 StepEv(s, e) ==
+  IF "node" \in DOMAIN e /\ e.node # 0 THEN OK(s) ELSE
   CASE e.e = "Call"  -> OnCall(s, e)
     [] e.e = "Ret"   -> OnRet(s, e)
     [] e.e = "Tx"    -> OnTx(s, e)
@@ -183,10 +188,25 @@ Step(s, e) ==
   LET r == StepEv(s, e) IN
   IF r.ok /\ InvWhy(r.st) # "" THEN Bad(s, InvWhy(r.st)) ELSE r
 
+(* ---- the server application's side of a deferred answer (srv=1) ---------- *)
+\* Until the answer is due a repeat of the request (network duplicate, retransmission after a lost ACK) is only acknowledged again;
+\* the handler is called to give the answer when it is due, not before (coap_async.c, handle_request: anchors of C07)
+SrvWhy(e) ==
+  IF e.e = "SrvHandler" /\ e.again = 1 /\ e.tok \in DOMAIN srv.pend /\ e.t < srv.pend[e.tok]
+  THEN "C07:server-handler-called-for-a-deferred-answer-before-it-was-due"
+  ELSE ""
+SrvNext(e) ==
+  IF e.e = "SrvHandler" /\ e.path # "r" /\ e.again = 0
+  THEN [srv EXCEPT !.pend = [x \in (DOMAIN srv.pend) \cup {e.tok} |-> IF x = e.tok THEN e.t + srv.trig ELSE srv.pend[x]]]
+  ELSE IF e.e = "SrvHandler" /\ e.again = 1
+  THEN [srv EXCEPT !.pend = [x \in (DOMAIN srv.pend) \ {e.tok} |-> srv.pend[x]]]
+  ELSE srv
+
 (* ---- the trace automaton ------------------------------------------------ *)
 Init ==
   /\ st = Dummy /\ l = 1 /\ rej = << >> /\ skip = TRUE /\ cur = -1
   /\ nexec = 0 /\ ndisc = 0 /\ known = {} /\ lastRx = [ty |-> -1, mid |-> -1, s |-> -1, dup |-> FALSE, prev |-> -1] /\ lastMid = [x \in {} |-> 0]
+  /\ srv = [trig |-> 0, pend |-> [x \in {} |-> 0]]
 
 Consume ==
   /\ l <= Len(TraceLog)
@@ -195,9 +215,12 @@ Consume ==
      THEN /\ st' = InitState(CfgOf(e), e.t)
           /\ skip' = FALSE /\ cur' = e.id /\ nexec' = nexec + 1
           /\ lastMid' = [x \in {} |-> 0] /\ UNCHANGED <<rej, ndisc, known, lastRx>>
+          /\ srv' = [trig |-> IF "trig" \in DOMAIN e THEN e.trig ELSE 0, pend |-> [x \in {} |-> 0]]
      ELSE IF skip
-     THEN UNCHANGED <<st, rej, skip, cur, nexec, ndisc, known, lastRx, lastMid>>
-     ELSE LET r == Step(st, e) IN
+     THEN UNCHANGED <<st, rej, skip, cur, nexec, ndisc, known, lastRx, lastMid, srv>>
+     ELSE LET r0 == Step(st, e)
+              r == IF r0.ok /\ SrvWhy(e) # "" THEN Bad(st, SrvWhy(e)) ELSE r0 IN
+          /\ srv' = SrvNext(e)
           /\ st' = r.st
           /\ rej' = IF r.ok THEN rej ELSE Append(rej, [id |-> cur, line |-> l, why |-> r.why])
           /\ skip' = (~r.ok \/ r.st.broken)
@@ -221,7 +244,7 @@ Finish ==
   /\ JsonSerialize(OutFile, [rejected |-> rej, executions |-> nexec, discarded |-> ndisc,
                              known |-> known, lines |-> Len(TraceLog)])
   /\ l' = l + 1
-  /\ UNCHANGED <<st, rej, skip, cur, nexec, ndisc, known, lastRx, lastMid>>
+  /\ UNCHANGED <<st, rej, skip, cur, nexec, ndisc, known, lastRx, lastMid, srv>>
 
 Next == Consume \/ Finish
 Spec == Init /\ [][Next]_vars
